@@ -30,6 +30,9 @@ ASSUMPTIONS = ['solver returns a point feasible for the compiled program within 
 
 
 def gen_case(rng, idx, tier):
+    if rng.random() < 0.08:
+        from rv import matrule
+        return matrule.gen(rng, tier)
     return R.gen(rng, tier)
 
 
@@ -110,6 +113,9 @@ def sig_of(f):
 
 
 def run_case(spec, ctx):
+    if spec.get('kind') == 'matrule':
+        from rv import matrule
+        return matrule.run(spec, ctx, exact=False)
     rng = np.random.default_rng(spec['spell'])
     try:
         B = R.build(spec)
